@@ -27,6 +27,14 @@ def cases(tier, seed):
     cs = workload.reader_population(n, seed + 300, max_levels=3)
     for i, c in enumerate(cs):
         c["sel_seed"] = seed * 13 + i
+        if i % 8 == 4:
+            # domains that straddle the origin with cell sizes that are no binary fractions: box faces at the
+            # coordinate 0, which origin + index * dx reproduces only up to rounding
+            nd = c["gen"]["ndims"]
+            c["gen"].update(origin=[-1.2, -2.4, -0.8][:nd], aniso=[0.1, 0.3, 0.1][:nd], bf=4, base_blocks=(4, 6),
+                            nlevels=min(c["gen"]["nlevels"], 2))
+            c["gen"].pop("length_scale", None)
+            c["gen"].pop("maxsz", None)
         if i % 4 == 2 and c["gen"].get("payload") == "random":
             # fields that are exactly zero in whole boxes (an absent species, a fluid at rest): extrema of 0.0
             c["zero_fine"] = True
